@@ -3,6 +3,7 @@ import RV.C06.Fresh
 import RV.C06.PatchLemmas
 import RV.C06.CG
 import RV.C06.PatchTextLemmas
+import RV.C06.TrigLoopLemmas
 /-
   C06 — property theorems (statements first, as `def … : Prop`, then the proofs).
 
@@ -139,6 +140,23 @@ def Statement_patch_operation_doc : Prop :=
     (DsWF s → ∀ target,
       SetEq (parseDoc (serializeDoc (some .add) target hid hprev s) []).1 s.d ∧
       SetEq (parseDoc (serializeDoc (some .del) target hid hprev s) s.d).1 [])
+
+
+/-! ### Round g — the TriG serializer as the loops it runs (`TrigLoop.lean`): statements -/
+
+/-- `preprocess` (dict `_contexts`, empty graphs passed over, a graph listed twice keeps its first place) followed by
+    the loop of `serialize` (entries without subjects passed over, header by identifier) writes exactly the block
+    list `emitTrig` — same blocks, same order — for every source (Dataset or ConjunctiveGraph). -/
+def Statement_trig_loop_refines : Prop := ∀ s : Src, emitTrigLoop s = emitTrig s
+
+/-- `each_triple_one_block` for the loop model, with "ONE block": no two blocks of the document are routed to the
+    same graph; and the round trip through the loop model. -/
+def Statement_each_triple_one_block_trig_loop : Prop :=
+  ∀ (s : Src), DsWF s →
+    (∀ (t : Triple) (g : Name), (t, g) ∈ s.d ↔ ∃ b ∈ emitTrigLoop s, dest b.spell = g ∧ t ∈ b.triples) ∧
+    ((emitTrigLoop s).map (fun b => dest b.spell)).Nodup ∧
+    (∀ b ∈ emitTrigLoop s, b.triples ≠ []) ∧
+    (∀ fresh, Iso s.d (route .trig (emitTrigLoop s) fresh))
 
 /-! ### Proofs -/
 
@@ -324,6 +342,39 @@ theorem patch_operation_doc : Statement_patch_operation_doc := by
     intro hx
     exact (setEq_stmts_emit .patch hw x).mpr hx
 
+
+/-! ### Round g — TriG loops: proofs -/
+
+theorem trig_loop_refines : Statement_trig_loop_refines := emitTrigLoop_eq
+
+theorem each_triple_one_block_trig_loop : Statement_each_triple_one_block_trig_loop := by
+  intro s h
+  rw [trig_loop_refines s]
+  refine ⟨each_triple_one_block .trig s h, ?_, ?_, quad_roundtrip .trig s h⟩
+  · have hd : ∀ g, dest (trigSpell s g) = g := by
+      intro g
+      unfold trigSpell
+      split
+      · next hg => rw [hg, h.dflt]; rfl
+      · rfl
+    have e : (emitTrig s).map (fun b => dest b.spell) =
+        (dedup (ctxPlusDefault s)).filter (fun g => !(triplesOf s.d g).isEmpty) := by
+      unfold emitTrig
+      rw [List.map_map]
+      conv => rhs; rw [← List.map_id (List.filter _ _)]
+      apply List.map_congr_left
+      intro g _
+      simp [blockOf, hd]
+    rw [e]
+    exact (nodup_dedup _).sublist List.filter_sublist
+  · intro b hb
+    unfold emitTrig at hb
+    obtain ⟨g, hg, rfl⟩ := List.mem_map.mp hb
+    have := (List.mem_filter.mp hg).2
+    intro hnil
+    simp [blockOf] at hnil
+    simp [hnil] at this
+
 /-! ### Non-vacuity: a dataset with a non-empty default graph, an IRI-named graph, a blank-node-named
     graph whose name is also a subject and an object elsewhere, a triple present in two graphs, a
     blank node shared across graphs, a registered empty graph, a graph listed twice -/
@@ -373,6 +424,9 @@ example : CgWF exCg := ⟨rfl, rfl, by unfold Covers; decide⟩
 example : (emit .trig exCg).map (·.spell) = [.unnamed, .named (.iri 4), .named (.bnode 1)] := by decide
 example : (emit .nquads exCg).map (·.spell) = [.named (.bnode 99), .named (.iri 4), .named (.bnode 1)] := by decide
 example : (emit .jsonld exCg).map (·.spell) = [.unnamed, .named (.iri 4), .named (.bnode 1)] := by decide
+
+example : (emitTrigLoop exSrc).map (fun b => (b.spell, b.triples)) = (emitTrig exSrc).map (fun b => (b.spell, b.triples)) := by decide
+example : (trigPreprocess exSrc (ctxPlusDefault exSrc) []).map (·.1) = [.iri 4, .bnode 1, .default] := by decide
 
 /-! ### Round g, non-vacuity: the patch document between `exSrc` and a second dataset, and a hand-made document -/
 
